@@ -458,7 +458,18 @@ def apply_spec(sp, op):
     elif k == "b.plasma":
         bs["plasma"] = op["to"] % len(sp["plasmas"])
     elif k == "b.attenuator":
+        if op.get("keep"):
+            sp.setdefault("_kept_att", []).append([op["i"] % len(sp["beams"]), dict(bs["attenuator"])])
         bs["attenuator"] = dict(op["att"])
+    elif k == "b.att.restore":
+        kept = sp.setdefault("_kept_att", [])
+        i = op["i"] % len(sp["beams"])
+        cand = [n for n, (bi, _a) in enumerate(kept) if bi == i]
+        if cand:
+            _bi, a = kept.pop(cand[op["which"] % len(cand)])
+            if op.get("keep"):
+                kept.append([i, dict(bs["attenuator"])])
+            bs["attenuator"] = a
     elif k == "b.att.step":
         bs["attenuator"]["step"] = op["value"]
     elif k == "b.att.clamp_sigma":
@@ -913,6 +924,17 @@ class SceneMachine(Machine):
                                                for _ in range(rng.randint(1, 3))]
                             apply_spec(gspec, x)
                             ops.append(x)
+                if m and m["op"] == "b.attenuator" and m.get("keep") and rng.random() < 0.6:
+                    # a1, a2, a1: the replaced attenuator comes back, then it alone is changed
+                    ops.append(self._gen_observe(rng, spec))
+                    for x in ({"op": "b.att.restore", "i": m["i"], "keep": rng.random() < 0.3, "which": 0},
+                              {"op": rng.choice(["b.att.clamp_sigma", "b.att.clamp_sigma", "b.att.step"]), "i": m["i"], "keep": False,
+                               "value": rng.choice([1.5, 6.0]) }):
+                        if x["op"] == "b.att.step":
+                            x["value"] = rng.choice([0.02, 0.15])
+                        apply_spec(gspec, x)
+                        ops.append(x)
+                    ops.append(self._gen_observe(rng, spec))
                 if m and m["op"] == "b.transform" and gspec["beams"] and rng.random() < 0.4:
                     # co-moving: the plasma is shifted on its own and observed, then the beam follows by the same shift
                     # (same relative placement as before, reached in two steps)
@@ -988,7 +1010,7 @@ class SceneMachine(Machine):
         if spec["beams"] or spec.get("laser"):
             k += ["hook.add", "hook.add"]
         if spec["beams"]:
-            k += ["b.set", "b.set", "b.element", "b.atomic_data", "b.plasma", "b.attenuator", "b.att.reassign", "b.att.step", "b.att.clamp_sigma",
+            k += ["b.set", "b.set", "b.element", "b.atomic_data", "b.plasma", "b.attenuator", "b.att.reassign", "b.att.restore", "b.att.step", "b.att.clamp_sigma",
                   "b.models.set", "b.models.add", "b.models.clear", "b.models.readd", "b.models.set.bad", "b.models.permute", "b.reassign", "b.caller.mutate", "b.model.line", "b.model.kw.mutate", "b.integrator", "b.transform", "b.parent",
                   "b.recreate", "b.reject", "fa.make", "fa.step", "fa.step", "fa.clamp"]
         if spec.get("laser"):
@@ -1160,6 +1182,8 @@ class SceneMachine(Machine):
                 op["to"] = rng.randrange(npl)
             elif kind == "b.attenuator":
                 op["att"] = gen_attenuator(rng)
+            elif kind == "b.att.restore":
+                op["which"] = rng.randrange(4)
             elif kind == "b.att.step":
                 op["value"] = rng.choice([0.02, 0.04, 0.08, 0.15])
             elif kind == "b.att.clamp_sigma":
@@ -1313,6 +1337,7 @@ class SceneMachine(Machine):
         c.kept_pm = []
         c.kept_bm = []
         c.hooks = []
+        c.kept_att = []
         c.mut_since = {}
         c.seen_channels = set()
         c.observed = False
@@ -1761,7 +1786,19 @@ class SceneMachine(Machine):
             env.probe("beam_switched_plasma")
         elif k == "b.attenuator":
             self._dispose(c, op, b.attenuator)
+            if op.get("keep"):
+                c.kept_att.append([i, b.attenuator])
             b.attenuator = mk_attenuator(op["att"])
+        elif k == "b.att.restore":
+            # an attenuator this beam had before (replaced, kept by the user) is installed again: a1, a2, a1
+            cand = [n for n, (bi, _o) in enumerate(c.kept_att) if bi == i]
+            if not cand:
+                return "noop"
+            _bi, old = c.kept_att.pop(cand[op["which"] % len(cand)])
+            if op.get("keep"):
+                c.kept_att.append([i, b.attenuator])
+            b.attenuator = old
+            env.probe("previous_attenuator_restored")
         elif k == "b.att.reassign":
             b.attenuator = b.attenuator
             env.probe("same_object_reassigned")
